@@ -39,10 +39,11 @@ func VerifHarness_NumericAndModeConstraints() {
 	c.Compression.Level = zz.Int()
 	c.Compression.Threshold = zz.Int()
 	ops := []float32{-1, 0, 0.001, 5}
-	q := &c.Quota.Connections // one of the two quotas is varied, the other keeps its defaults
+	q, other := &c.Quota.Connections, &c.Quota.Logins // one quota is varied fully, the other is only switched on or off
 	if zz.Bool() {
-		q = &c.Quota.Logins
+		q, other = other, q
 	}
+	other.Enabled = zz.Bool()
 	q.Enabled = zz.Bool()
 	q.OPS = ops[zz.Choose(len(ops))]
 	q.Burst = zz.Int()
